@@ -49,6 +49,7 @@ META = dict(
 
 M = 'holopy.inference.model.'
 RM = 'holopy.core.mapping.read_map'
+DTA = 'holopy.core.metadata.dict_to_array'
 
 
 def run(check, prog):
@@ -324,16 +325,18 @@ def precedence(check, prog):
     q = M + 'Model._find_noise'
     fd = prog.func(q)
     loc = prog.loc(q, fd)
-    it = Interp(prog, max_depth=1, opaque=[RM])
+    it = Interp(prog, max_depth=1, opaque=[RM, DTA])
     res = it.analyze(q)
     om = intern(('call', RM, (('idx', ('attr', sym('self'), '_maps'),
                                ('const', 'optics')), sym('pars')), ()))
     model_val = intern(('idx', om, ('const', 'noise_sd')))
     data_val = intern(('attr', sym('schema'), 'noise_sd'))
+    # (the model's value may come attached to the data's channel labels)
+    model_lab = intern(('call', DTA, (sym('schema'), model_val), ()))
     ok = False
     for o in res.returns:
         for x in subterms(o.value):
-            if x[0] == 'ite' and x[2] == model_val and x[3] == data_val:
+            if x[0] == 'ite' and x[2] in (model_val, model_lab) and x[3] == data_val:
                 c = x[1]
                 ok = any(y == ('cmp', 'is not', model_val, NONE) for y in subterms(c))
     check.require(ok, 'P5-noise-precedence', 'Model._find_noise',
@@ -466,7 +469,7 @@ def precedence_tables(check, prog):
     q = M + 'Model._find_noise'
     fd = prog.func(q)
     loc = prog.loc(q, fd)
-    it = Interp(prog, max_depth=1, opaque=[RM])
+    it = Interp(prog, max_depth=1, opaque=[RM, DTA])
     res = it.analyze(q)
     v = res.ret_with_raises
     K = intern(('const', 'noise_sd'))
